@@ -404,8 +404,9 @@ class WritableStream(io.RawIOBase):
         if self._exp_header is not None:
             # Expedited download
             data = self._exp_data + bytes(b)
-            if len(data) > 4:
+            if len(data) > self.size:
                 # Nothing of a refused write must be sent by close()
+                self.pos -= len(self._exp_data)
                 self._exp_data = b""
                 raise AssertionError("More data received than expected")
             if len(data) < self.size:
